@@ -137,6 +137,9 @@ class ParProp(props.BaseProp):
         calls.append("all_pairs %d %d %s %d %d" % (wflag(), int(cutoff), bits(2.5 + r.below(40) / 8.0),
                                                    int(r.chance(1, 3)), int(r.chance(2, 3))))
         calls.append("all_pairs %d 0 %s 0 0" % (wflag(), bits(0.0)))          # the dijkstra_basic path
+        # a target (the search stops early at it: per-source state must not leak between work items)
+        calls.append("all_pairs %d 0 %s %d %d 1 %d" % (wflag(), bits(0.0), int(r.chance(1, 3)), int(r.chance(2, 3)),
+                                                      r.below(n)))
         k = 1 + r.below(n)
         srcs = [r.below(n) for _ in range(k)]
         calls.append("multi_source %d %d %d %s" % (wflag(), int(r.chance(1, 3)), int(r.chance(2, 3)),
